@@ -73,4 +73,23 @@ theorem traces_where_the_header_says (fh : Nat → Nat) (ns t : Nat) :
   · rw [if_pos h]
   · rw [if_neg h]; rfl
 
+/-- traces of the export are laid out back to back, each `240 + 4·ns` bytes, starting right after the file headers and the
+extended textual headers the binary header announces -/
+theorem export_traces_consecutive (fh : Nat → Nat) (ns t : Nat) :
+    exportTraceOffset fh ns 0 = 3600 + 3200 * extCount fh
+    ∧ exportTraceOffset fh ns (t + 1) = exportTraceOffset fh ns t + (240 + 4 * ns) := by
+  unfold exportTraceOffset
+  constructor
+  · simp
+  · have e : (t + 1) * (240 + 4 * ns) = t * (240 + 4 * ns) + (240 + 4 * ns) := Nat.succ_mul _ _
+    omega
+
+/-- no two traces of the export overlap, and none overlaps the file headers -/
+theorem export_traces_disjoint (fh : Nat → Nat) (ns t t' : Nat) (h : t < t') :
+    3600 ≤ exportTraceOffset fh ns t ∧ exportTraceOffset fh ns t + (240 + 4 * ns) ≤ exportTraceOffset fh ns t' := by
+  unfold exportTraceOffset
+  have h1 : (t + 1) * (240 + 4 * ns) ≤ t' * (240 + 4 * ns) := Nat.mul_le_mul_right _ h
+  have e : (t + 1) * (240 + 4 * ns) = t * (240 + 4 * ns) + (240 + 4 * ns) := Nat.succ_mul _ _
+  constructor <;> omega
+
 end Sgz.Props.C06
